@@ -169,7 +169,9 @@ def simulate(spec, progs=True):
         for pair, v in tr["pairs"].items():
             a, b = pair.split(">")
             name = f"{tr['name']}_{a}_to_{b}"
-            tpars[(a, name)] = dict(name=name, fmt=tr.get("units", "rate"), val=v, ts=None)
+            tyf = tr.get("yf")  # calibration factors of the transfer: per destination population (dict keyed by the pair) or one number, and the all-population factor
+            tyf = (tyf.get(pair, 1.0) if isinstance(tyf, dict) else (1.0 if tyf is None else tyf)) * (tr.get("myf") or 1.0)
+            tpars[(a, name)] = dict(name=name, fmt=tr.get("units", "rate"), val=v, ts=None, factor=tyf)
             for c in spec["comps"]:
                 if kinds[c["name"]] == "ord":
                     links.append(dict(pop=a, src=c["name"], dpop=b, dst=c["name"], par=name, kind="par"))
@@ -305,7 +307,8 @@ def simulate(spec, progs=True):
     # interactions
     inter = {}
     for it in spec.get("interactions", []):
-        inter[it["name"]] = {tuple(k.split(">")): v for k, v in it["pairs"].items()}
+        iyf = it.get("yf")
+        inter[it["name"]] = {tuple(k.split(">")): v * (iyf.get(k, 1.0) if isinstance(iyf, dict) else (1.0 if iyf is None else iyf)) * (it.get("myf") or 1.0) for k, v in it["pairs"].items()}
 
     junc_order = []
     jset = [n for n, k in kinds.items() if k == "junc"]
@@ -416,7 +419,7 @@ def simulate(spec, progs=True):
                 if pval[(pop, n)] is not None:
                     pval[(pop, n)] = clip(p, pval[(pop, n)])
         for (pop, n), p in tpars.items():
-            v = interp_linear(p["val"], t)
+            v = interp_linear(p["val"], t) * p.get("factor", 1.0)
             v = max(v, 1e-6) if p["fmt"] == "duration" else max(v, 0.0)
             pval[(pop, n)] = v
 
